@@ -178,8 +178,24 @@ def run_typeuses(ctx, rep, rid="R-C02-typeuses"):
         succ = arm_of.get(name)
         own_arm = succ is not None and len([l for l, s_ in arm_of.items() if s_ == succ]) == 1
         region = b.reachable(succ, avoid=entries - {succ}) if own_arm else set()
-        makes = any(i in region and st[0] == "=" and st[2][0] == "agg" and isinstance(st[2][1], dict) and (st[2][1].get("adt") or "").endswith("InitialValueAssignmentKind")
-                    and st[2][1].get("variant") == "FunctionBlock" for i, j, st in b.all_stmts())
+        def builds_fb(body, blocks=None, depth=2, seen=None):
+            """an InitialValueAssignmentKind::FunctionBlock aggregate in these blocks of the body, or in a helper of the analyzer called from them"""
+            seen = seen if seen is not None else set()
+            if body.id in seen:
+                return False
+            seen.add(body.id)
+            for i, j, st in body.all_stmts():
+                if (blocks is None or i in blocks) and st[0] == "=" and st[2][0] == "agg" and isinstance(st[2][1], dict) \
+                        and (st[2][1].get("adt") or "").endswith("InitialValueAssignmentKind") and st[2][1].get("variant") == "FunctionBlock":
+                    return True
+            if depth > 0:
+                for c in body.calls():
+                    if (blocks is None or c.bb in blocks) and (c.callee or "").startswith("ironplc_analyzer::"):
+                        for hb in ctx.prog.get(c.callee):
+                            if builds_fb(hb, None, depth - 1, seen):
+                                return True
+            return False
+        makes = builds_fb(b, region)
         if makes:
             r2.ok(inst, where, why)
         else:
